@@ -28,4 +28,6 @@ def run(rep, tier, seed):
     must = lambda c: any(mode == "must" for _, _, mode in c.raises) or any(i in ("value", "kept-whole", "passthrough") for i, _ in c.ensures)
     for m in ("contracts.types_basic", "contracts.types_decimal"):
         run_contracts(rep, m, tier, seed, select=must, accept_props=["C10", "C11"])
+    from props.tables import run_tables
+    run_tables(rep, rep.prop)
     replay_known_findings(rep)
